@@ -409,6 +409,65 @@ impl ReplicationFetcher {
     }
 }
 
+/// Read-only views of private state, and deadline ageing, for the conformance harness.
+#[cfg(maidsafe_safe_network_verif)]
+impl ReplicationFetcher {
+    pub(crate) fn verif_to_be_fetched(&self) -> Vec<(RecordKey, RecordType, PeerId)> {
+        self.to_be_fetched.keys().cloned().collect()
+    }
+
+    pub(crate) fn verif_on_going_fetches(&self) -> Vec<(RecordKey, RecordType, PeerId)> {
+        self.on_going_fetches
+            .iter()
+            .map(|((key, record_type), (holder, _))| (key.clone(), record_type.clone(), *holder))
+            .collect()
+    }
+
+    pub(crate) fn verif_distance_range(&self) -> Option<U256> {
+        self.distance_range
+    }
+
+    pub(crate) fn verif_farthest_acceptable_distance(&self) -> Option<Distance> {
+        self.farthest_acceptable_distance
+    }
+
+    fn verif_past() -> Instant {
+        let now = Instant::now();
+        now.checked_sub(Duration::from_millis(1)).unwrap_or(now)
+    }
+
+    pub(crate) fn verif_expire_on_going(&mut self, key: &RecordKey, record_type: &RecordType) -> bool {
+        match self
+            .on_going_fetches
+            .get_mut(&(key.clone(), record_type.clone()))
+        {
+            Some((_holder, time_out)) => {
+                *time_out = Self::verif_past();
+                true
+            }
+            None => false,
+        }
+    }
+
+    pub(crate) fn verif_expire_pending(
+        &mut self,
+        key: &RecordKey,
+        record_type: &RecordType,
+        holder: &PeerId,
+    ) -> bool {
+        match self
+            .to_be_fetched
+            .get_mut(&(key.clone(), record_type.clone(), *holder))
+        {
+            Some(time_out) => {
+                *time_out = Self::verif_past();
+                true
+            }
+            None => false,
+        }
+    }
+}
+
 #[cfg(test)]
 mod tests {
     use super::{ReplicationFetcher, FETCH_TIMEOUT, MAX_PARALLEL_FETCH};
